@@ -43,6 +43,9 @@ def alphabet(N):
         ("GetImage", 0.0),
         ("GetInverseImage", np.array([0.3 - 0.11 * i for i in range(N)], dtype=np.double)),
         ("GetPreimages", np.array([0.45 + 0.05 * i for i in range(N)], dtype=np.double)),
+        # coordinates exactly at the centre of the B1 range / of the unit cube (zero residual at the first level)
+        ("GetInverseImage", np.array([(b1[0][i] + b1[1][i]) / 2 if i % 2 == 0 else 1.1 for i in range(N)], dtype=np.double)),
+        ("GetInverseImage", np.array([0.0 if i % 2 else 0.25 for i in range(N)], dtype=np.double)),
         # the caller re-uses (overwrites in place) the arrays it once handed over as bounds: the object keeps its box
         ("CallerOverwritesItsBoundArrays", None),
     ]
